@@ -41,16 +41,21 @@ CONSTANTS
     N,            \* group size
     T,            \* dishonest threshold (polynomial degree)
     CorruptSets,  \* set of admissible corrupt sets (each of size <= T)
-    K,            \* deviation budget of the adversary
-    Kinds,        \* enabled deviation kinds (strings, see Adversary section)
-    Fixes,        \* repairs present in the modelled code
-    FullOrder,    \* TRUE: every cross-sender delivery order; FALSE: honest senders first
+    Classes,      \* adversary classes: records [name, kinds (enabled deviation kinds, see
+                  \* the Adversary section), k (deviation budget), ord (delivery orders)]
+    FixSets,      \* sets of repairs present in the modelled code ({} = the pinned code)
     Plans         \* admissible per-message-state caps on the deviations spent (sequences of 6)
 
 Members == 1..N
 Ids     == 0..(N + 1)
 
+\* cls.ord, the cross-sender delivery orders explored in the order sensitive
+\* states: "full" all, "corrupt" honest senders first then any order of the
+\* corrupt, "rev1" ascending except that the lowest honest member gets the
+\* corrupt senders in descending order, "asc" ascending only.
 VARIABLES
+    cls,       \* adversary class of this run (constant during a run)
+    fixes,     \* repairs present in the code of this run (constant during a run)
     corrupt,   \* the corrupt members of this run
     pos,       \* <<stage index, member that acts next>>
     mem,       \* mem[h]: view of honest member h
@@ -59,7 +64,11 @@ VARIABLES
     plan,      \* cap on the deviations spent in each of the 6 message states
     dord       \* cross-sender delivery order used by the last Receive (<<>> otherwise)
 
-vars == <<corrupt, pos, mem, out, budget, plan, dord>>
+vars == <<cls, fixes, corrupt, pos, mem, out, budget, plan, dord>>
+Kinds == cls.kinds
+Fixes == fixes
+OrderMode == cls.ord
+K == cls.k
 
 Honest == Members \ corrupt
 
@@ -140,8 +149,12 @@ Concat(ord, o) == IF ord = <<>> THEN <<>> ELSE o[Head(ord)] \o Concat(Tail(ord),
 Ascending(S) == SetToSortSeq(S, LAMBDA a, b : a < b)
 
 Orders(h) ==
-    IF FullOrder THEN Perms(Members \ {h})
-    ELSE {Ascending(Honest \ {h}) \o p : p \in Perms(corrupt)}
+    CASE OrderMode = "full" -> Perms(Members \ {h})
+      [] OrderMode = "corrupt" -> {Ascending(Honest \ {h}) \o p : p \in Perms(corrupt)}
+      [] OrderMode = "rev1" -> IF h = Min(Honest)
+                               THEN {Ascending(Honest \ {h}) \o Reverse(Ascending(corrupt))}
+                               ELSE {Ascending(Members \ {h})}
+      [] OTHER -> {Ascending(Members \ {h})}
 
 -----------------------------------------------------------------------------
 (* Evidence lookups (protocol.go findPublicKey)                            *)
@@ -457,6 +470,8 @@ Cap == IF budget < plan[AdvStageNo] THEN budget ELSE plan[AdvStageNo]
 
 -----------------------------------------------------------------------------
 Init ==
+    /\ cls \in Classes
+    /\ fixes \in FixSets
     /\ corrupt \in CorruptSets
     /\ mem = [h \in Members |-> EmptyMem]
     /\ out = [m \in Members |-> <<>>]
@@ -473,7 +488,7 @@ Apply(h, r) ==
        /\ out' = [out EXCEPT ![h] = r.out]
        /\ pos' = NextPos(pos[1], h, mm, corrupt)
        /\ dord' = <<>>
-       /\ UNCHANGED <<corrupt, budget, plan>>
+       /\ UNCHANGED <<cls, fixes, corrupt, budget, plan>>
 
 At(name) == StageName = name /\ pos[2] \in Honest
 
@@ -506,7 +521,7 @@ Receive ==
           IN /\ mem' = mm
              /\ pos' = NextPos(pos[1], h, mm, corrupt)
              /\ dord' = (IF OrderSensitive THEN o ELSE <<>>)
-             /\ UNCHANGED <<corrupt, out, budget, plan>>
+             /\ UNCHANGED <<cls, fixes, corrupt, out, budget, plan>>
 
 Adversary ==
     /\ IsAdvStage(pos[1])
@@ -517,7 +532,7 @@ Adversary ==
              /\ budget' = budget - ch[2]
        /\ pos' = NextPos(pos[1], c, mem, corrupt)
        /\ dord' = <<>>
-       /\ UNCHANGED <<corrupt, mem, plan>>
+       /\ UNCHANGED <<cls, fixes, corrupt, mem, plan>>
 
 Next ==
     \/ P1_Initiate \/ P2_Initiate \/ P3_Initiate \/ P4_Initiate \/ P5_Initiate \/ P6_Initiate
